@@ -286,6 +286,7 @@ inductive Err where
   | reid (name : Str)       -- "%v is redeclared with a different ID (%q vs %q)"
   | redecl (name : Str)     -- "redeclaration of '%v'"
   | dupName (name : Str)    -- "duplicate name %v"
+  | spaceMix (name : Str)   -- "%v is declared as both a space and non-space terminal"
   deriving DecidableEq, Repr
 
 def Err.isDup : Err → Bool
@@ -298,6 +299,8 @@ structure RState where
   syms : List Sym := []
   ids : List (Str × Str) := []
   tokID : List (Str × Str) := []
+  /-- `Symbol.Space` of the registered terminals -/
+  spaces : List (Str × Bool) := []
   errs : List Err := []
 
 def hasName (st : RState) (name : Str) : Bool := st.syms.any (fun s => s.name == name)
@@ -306,15 +309,19 @@ def hasName (st : RState) (name : Str) : Bool := st.syms.any (fun s => s.name ==
 ident.Produce(id, ident.UpperCase) }` (empty = no `(ID)` clause). -/
 def lexemeId (id : Str) : Str := if id.any isLowerA then produce id .upperCase else id
 
-/-- `resolver.addToken(name, id, …)` with constant raw type / space attribute. -/
-def addToken (st : RState) (name id : Str) : RState :=
+/-- `resolver.addToken(name, id, rawType, space, …)` with a constant raw type; `space` = the lexeme has
+the `(space)` attribute. The ID collision check does not depend on it. -/
+def addToken (st : RState) (name id : Str) (space : Bool := false) : RState :=
   if hasName st name then
-    if (st.tokID.lookup name).getD [] != id then { st with errs := st.errs ++ [.reid name] } else st
+    let errs1 := if (st.spaces.lookup name).getD false != space then st.errs ++ [.spaceMix name] else st.errs
+    if (st.tokID.lookup name).getD [] != id then { st with errs := errs1 ++ [.reid name] }
+    else { st with errs := errs1 }
   else
     let id' := if id = [] then produce name .upperCase else id
     { syms := st.syms ++ [⟨name, id'⟩]
       ids := (id', name) :: st.ids
       tokID := (name, id) :: st.tokID
+      spaces := (name, space) :: st.spaces
       errs := match st.ids.lookup id' with
         | some prev => st.errs ++ [.dup name prev]
         | none => st.errs }
@@ -345,8 +352,8 @@ def collectNonterms (st : RState) : List Str → List Str → List Err → List 
       collectNonterms st rest (acc ++ [name]) errs
 
 structure Decls where
-  /-- lexemes in source order: name and the text of the `(ID)` clause (`[]` when absent) -/
-  toks : List (Str × Str)
+  /-- lexemes in source order: name, the text of the `(ID)` clause (`[]` when absent), `(space)` attribute -/
+  toks : List (Str × Str × Bool)
   nonterms : List Str
   /-- `flexMode = true` (C++ target): lexemes go through `parseFlexDeclarations` -/
   flex : Bool
@@ -361,9 +368,9 @@ structure Decls where
 
 /-- One lexeme in `lexerCompiler.parseFlexDeclarations`: a second declaration of a name is an error
 ("redeclaration of '%v'") and is skipped; the explicit ID is normalised by the same test. -/
-def addFlexToken (st : RState) (t : Str × Str) : RState :=
+def addFlexToken (st : RState) (t : Str × Str × Bool) : RState :=
   if hasName st t.1 then { st with errs := st.errs ++ [.redecl t.1] }
-  else addToken st t.1 (lexemeId t.2)
+  else addToken st t.1 (lexemeId t.2.1) t.2.2
 
 /-- lexer phase: `eoi`, `invalid_token`, then every lexeme (`traverseLexer`); in flex mode `eoi`,
 `error` with the fixed ID `YYerror`, `invalid_token`, then every lexeme (`parseFlexDeclarations`). -/
@@ -376,7 +383,7 @@ def tokenPhase (d : Decls) : RState :=
   else
     let st0 := addToken (addToken {} (cs ['e','o','i']) [])
       (cs ['i','n','v','a','l','i','d','_','t','o','k','e','n']) []
-    d.toks.foldl (fun st t => addToken st t.1 (lexemeId t.2)) st0
+    d.toks.foldl (fun st t => addToken st t.1 (lexemeId t.2.1) t.2.2) st0
 
 structure Result where
   syms : List Sym
